@@ -120,19 +120,62 @@ def parseAct : String → Option Act
   | "e" => some .error
   | _ => none
 
+/-- in which callbacks a scripted visitor acts (see harness/c11.go, c11Script) -/
+inductive Sel where
+  | at (ks : List Nat)                      -- the listed callbacks (1-based)
+  | kinds (e v x : Bool) (m r : Nat)        -- every callback of these kinds whose node name has byte sum ≡ r (mod m); m = 0: all
+deriving Repr
+
 structure Script where
   text : String
   structural : Bool
-  k : Nat
+  sel : Sel
   act : Act
+
+def nameHash (s : String) : Nat := s.foldl (fun h c => h + c.toNat) 0
+
+def parseKinds (s : String) : Option (Bool × Bool × Bool) :=
+  if s.isEmpty || s.any (fun c => c != 'E' && c != 'V' && c != 'X') then none
+  else some (s.contains 'E', s.contains 'V', s.contains 'X')
+
+def parseSel (s : String) : Option Sel :=
+  if s.startsWith "*" then do
+    let (e, v, x) ← parseKinds (s.drop 1).toString
+    pure (.kinds e v x 0 0)
+  else if s.startsWith "#" then
+    match ((s.drop 1).toString).splitOn "." with
+    | [m, rest] => do
+      let m ← m.toNat?
+      let digits := rest.takeWhile Char.isDigit
+      let r ← digits.toString.toNat?
+      let (e, v, x) ← parseKinds (rest.drop digits.toString.length).toString
+      if m == 0 then none else pure (.kinds e v x m r)
+    | _ => none
+  else do
+    let ks ← (s.splitOn "+").mapM String.toNat?
+    pure (.at ks)
 
 def parseScript (s : String) : Option Script :=
   match s.splitOn ":" with
-  | [m, k, a] => do
-    let k ← k.toNat?
+  | [m, sel, a] => do
+    let sel ← parseSel sel
     let a ← parseAct a
-    if m == "st" || m == "pg" then some ⟨s, true, k, a⟩ else if m == "se" then some ⟨s, false, k, a⟩ else none
+    if m == "st" || m == "pg" then some ⟨s, true, sel, a⟩ else if m == "se" then some ⟨s, false, sel, a⟩ else none
   | _ => none
+
+/-- the scripted visitor as a function of the event history: the action is taken in the selected callbacks -/
+def schedVisitor {α : Type} (name : α → String) (sel : Sel) (act : Act) : Visitor α := fun hist =>
+  match hist.getLast? with
+  | none => .continue
+  | some ev =>
+    let hit := match sel with
+      | .at ks => ks.contains hist.length
+      | .kinds e v x m r =>
+        (match ev with
+          | .enter _ => e
+          | .visit _ => v
+          | .exit _ => x) && (m == 0 || nameHash (name ev.label) % m == r)
+    if hit then act else .continue
 
 def evStr : Ev Lbl → String
   | .enter l => "E:" ++ l.name
@@ -146,7 +189,7 @@ def resStr : Option Result → String
   | none => "no-return"
 
 def runScript (ts tse : Tree Lbl) (sc : Script) : String :=
-  let st := generic (scripted sc.k sc.act) (if sc.structural then ts else tse)
+  let st := generic (schedVisitor (·.name) sc.sel sc.act) (if sc.structural then ts else tse)
   let log := if st.log.isEmpty then "-" else ",".intercalate (st.log.map evStr)
   s!"W {sc.text} {resStr st.ret} {log}"
 
